@@ -91,6 +91,7 @@ def small_scope_trees(ctx):
         yield ["and", ["m", x], ["m", y]]
         yield ["or", ["m", x], ["m", y]]
     yield from resolution_trees()
+    yield from contradiction_trees()
     ea = [f'extra {op} "{n}"' for op in ("==", "!=") for n in ("a", "b", "Foo_Bar")]
     for x, y, z in itertools.product(ea, repeat=3):
         yield ["or", ["and", ["m", x], ["m", y]], ["m", z]]
@@ -351,6 +352,30 @@ def resolution_trees():
             if ev == "extra":
                 yield ["noextras", base]
             yield ["exclude", ["exclude", base, ev], "sys_platform"]
+
+
+def contradiction_trees():
+    """Alternatives that share an atom and are contradictions the pairwise rules cannot see (`v == "a" and v not in
+    "a b"`: the string algebra has no rule for == against not in / in), so that the simplifiers produce an EMPTY (dual:
+    universal) intermediate in the middle of a fixed-point loop - with a further alternative before / after it."""
+    v = "sys_platform"
+    shared = [f'{v} not in "a b"', f'{v} in "zz"', f'{v} not in "ab"']
+    eqs = [f'{v} == "a"', f'{v} == "b"', f'{v} == "ab"']
+    thirds = ['os_name == "nt"', 'python_version >= "3.8"', 'os_name == "nt" and python_version < "3.8"']
+    for c, (x, y), third in itertools.product(shared, itertools.permutations(eqs, 2), thirds):
+        alts = [f"{x} and {c}", f"{y} and {c}"]
+        for order in ([*alts, third], [third, *alts], [alts[0], third, alts[1]]):
+            yield ["m", " or ".join(f"({a})" for a in order)]
+        yield ["or", ["or", ["and", ["m", x], ["m", c]], ["and", ["m", y], ["m", c]]], ["m", third]]
+        yield ["or", ["m", third], ["or", ["and", ["m", c], ["m", x]], ["and", ["m", y], ["m", c]]]]
+        yield ["noextras", ["m", " or ".join(f"({a})" for a in [*alts, third, 'extra == "e"'])]]
+        # dual: clauses that are tautologies the pairwise rules cannot see
+        nx, ny = x.replace("==", "!="), y.replace("==", "!=")
+        cd = c.replace("not in", "§").replace(" in ", " not in ").replace("§", "in")
+        clauses = [f"{nx} or {cd}", f"{ny} or {cd}"]
+        for order in ([*clauses, third], [third, *clauses]):
+            yield ["m", " and ".join(f"({a})" for a in order)]
+        yield ["and", ["and", ["or", ["m", nx], ["m", cd]], ["or", ["m", ny], ["m", cd]]], ["m", third]]
 
 
 def run_trees(ctx, run_tree, *, n_random, max_atoms, unary_p=0.3, small_frac=1.0, cfg=None, seconds=None, strata=True):
